@@ -679,18 +679,17 @@ def r10_expansions_descended(ctx) -> None:
         def __init__(self, values):
             self.values = values
 
-    me = type("VT", (), {})()
-    me.value_types = _T
-    me.apply_value = lambda field, v: _Str(v.t.upper()) if isinstance(v, _Str) else None
+    from ..tabulate import Proxy, call_method
+    from collections.abc import Iterable as _It
+    env10 = {"SigmaExpansion": _Exp, "SigmaType": _T, "Iterable": _It}
+    me = Proxy(prog, TB + ".ValueTransformation", env10, {"value_types": _T, "processing_item": None, "_pipeline": None,
+                                                           "apply_value": lambda field, v: _Str(v.t.upper()) if isinstance(v, _Str) else None}, interp_kwargs={"max_steps": 8000})
     item = type("Item", (), {})()
     item.field = "f"
     n1, n2 = _Num(1), _Num(2)
     item.value = [_Str("a"), _Exp([_Str("b"), n1]), n2]
-    it = Interp({"self": me, "detection_item": item, "SigmaExpansion": _Exp, "SigmaType": _T, "Iterable": (list, tuple)}, max_steps=5000)
-    for nm, m in helpers.items():
-        setattr(me, nm, (lambda mm: (lambda *a, **k: Interp({**it.env, "self": me}, 5000)._make_function(mm.node)(me, *a, **k)))(m))
     try:
-        out = it.call(f.node.body)
+        out = call_method(prog, TB + ".ValueTransformation", "apply_detection_item", me, env10, item, interp_kwargs={"max_steps": 8000})
     except Raised as ex:
         r.violation("C12.R10", f.qual, "apply_detection_item on [string, expansion, number]", f"raises {ex}", f.loc)
         r.floor("C12.R10", 1)
